@@ -9,7 +9,8 @@
 (*           are sets of glob names, {} = key absent)                      *)
 (*   ov    : [dflt |-> severity or "none", byId |-> id :> severity,        *)
 (*            filter |-> set of ids the --filter regex selects or "all"]   *)
-(*   lglob : TRUE when sgconfig maps the extra extension to JavaScript     *)
+(*   lglob : "none" | "extra" (files .mjsx are JavaScript) | "override"    *)
+(*           (.py, an extension a built-in language owns, is JavaScript)   *)
 (* Paths, their languages and the glob truth table are fixed constants,    *)
 (* written by hand from the glob documentation (not computed by globset).  *)
 (***************************************************************************)
@@ -20,8 +21,9 @@ Paths == {"a.js", "src/a.js", "src/sub/b.js", "test/c.js", "src/x.ts", "lib/y.py
 LangOf(p, lglob) ==
     CASE p \in {"a.js", "src/a.js", "src/sub/b.js", "test/c.js"} -> "JavaScript"
       [] p = "src/x.ts" -> "TypeScript"
-      [] p = "lib/y.py" -> "Python"
-      [] p = "src/w.mjsx" -> IF lglob THEN "JavaScript" ELSE "none"
+      \* languageGlobs of the project win over the built-in extension table
+      [] p = "lib/y.py" -> IF lglob = "override" THEN "JavaScript" ELSE "Python"
+      [] p = "src/w.mjsx" -> IF lglob = "extra" THEN "JavaScript" ELSE "none"
       [] OTHER -> "none"
 
 Globs == {"src/**", "**/sub/**", "test/**", "**/*.js", "src/a.js", "lib/**"}
